@@ -943,7 +943,7 @@ def c14(ctx):
     ws_mc(ctx)
     ws_judge(ctx, ws_gen(ctx, "corrupt", 5 if q else 7), "A", "C14")
     ctx.exhaustive = True
-    ws_random(ctx, ("corrupt",), 8000 if q else 80000, "B", "C14", 2)
+    ws_random(ctx, ("corrupt", "corruptlong"), 8000 if q else 80000, "B", "C14", 2)
 
 
 # ---------------------------------------------------------------------------
